@@ -59,6 +59,26 @@ var (
 		Text: "the case-type sets of ToInt/ToInt64/ToFloat64/ToRune/ToByteSlice/ToTime/ToString/ToBool equal the columns of the conversion table in docs/runtime-types.md; each conversion builtin is identity on its target type, converts args[0] with the matching To* function, builds the object from the converted value, and falls back to args[1] / undefined"}
 	rFALSY1 = &Rule{Name: "FALSY.1", Floor: 11, Fn: ruleFALSY1,
 		Text: "each IsFalsy is the predicate documented for its type in docs/runtime-types.md (after a small normalisation)"}
+	rPANIC1 = &Rule{Name: "PANIC.1", Floor: 12, Fn: rulePANIC1,
+		Text: "every explicit panic reachable (VTA call graph) from the scan/parse/compile entry points is classified in a table keyed by function+message as recovered in place, re-raise, guarded (with a statically re-checked premise), unreachable (with reason/premise) or contract; an unclassified reachable panic is a violation"}
+	rPANIC2 = &Rule{Name: "PANIC.2", Floor: 3, Fn: rulePANIC2,
+		Text: "every switch on a SymbolScope value handles all scopes or ends in a default arm that returns an error (no panic); the capture switch (Local/Free only) is tabled with its premise re-checked"}
+	rPANIC3 = &Rule{Name: "PANIC.3", Floor: 2, Fn: rulePANIC3,
+		Text: "the globals slice is cut / indexed only behind a comparison of the symbol count with GlobalsSize that returns an error"}
+	rSCOPE1 = &Rule{Name: "SCOPE.1", Floor: 7, Fn: ruleSCOPE1,
+		Text: "acquire/release pairing on all exits in the compiler: enterScope→leaveScope and enterLoop→leaveLoop on every path including error returns; Fork(true) is undone by the next statement's deferred Parent()"}
+	rNEWPARSER = &Rule{Name: "NEWPARSER", Floor: 8, Fn: ruleNEWPARSER,
+		Text: "every AddFile call passes base -1 and len(src); every NewParser call passes a file made by AddFile(_, -1, len(src)) for the same src (premise of the scanner's size panic)"}
+	rPOSARG = &Rule{Name: "POSARG", Floor: 23, Fn: rulePOSARG,
+		Text: "every parser error is reported at p.pos, a saved p.pos or a node's Pos() - never at End() or a computed position (premise of SourceFile.Position's panic and of 'positions lie inside the input')"}
+	rJMP1 = &Rule{Name: "JMP.1", Floor: 20, Fn: ruleJMP1,
+		Text: "every placeholder jump (emit of a VM jump opcode with operand 0) is patched by changeOperand or recorded in the loop's break/continue list on every non-error path; every changeOperand patches such a position; loop lists are only appended to and ranged over"}
+	rJMP2 = &Rule{Name: "JMP.2", Floor: 2, Fn: ruleJMP2,
+		Text: "the functions that open/close a compilation scope reset/restore the loop stack, so a break/continue can never bind to a loop of an enclosing function"}
+	rRET1 = &Rule{Name: "RET.1", Floor: 7, Fn: ruleRET1,
+		Text: "RET.1/FRAME.1: function bodies are compiled, then optimised/terminated, then captured; NumLocals/NumParameters/VarArgs/capture list come from the function's own table and signature before the scope is left; main ends in a never-fall-through opcode; optimizeFunc appends the final return"}
+	rOPT = &Rule{Name: "OPT", Floor: 5, Fn: ruleOPT,
+		Text: "OPT.1 offsets looked up in the old→new position map are used verbatim (jump operands, source-map keys), a jump to the old end maps to the new end; OPT.2 the map is filled with len(new) right before each instruction is appended; OPT.3 jump destinations end dead regions"}
 )
 
 func allProperties() []*Property {
@@ -70,11 +90,15 @@ func allProperties() []*Property {
 		{ID: "C02",
 			Decided:    "instruction format agreement; opcode-class agreement.",
 			NotDecided: "stack balance and jump well-formedness for all compiled programs.",
-			Rules:      []*Rule{rCODEC1, rCODEC2, rCODEC3, rCODEC5}},
+			Rules:      []*Rule{rCODEC1, rCODEC2, rCODEC3, rCODEC5, rJMP1, rJMP2, rRET1, rSCOPE1}},
 		{ID: "C03",
 			Decided:    "the optimizer's notion of jump / terminator is the VM's (opcode classes extracted from the VM arms).",
 			NotDecided: "equivalence of optimised and unoptimised code for all programs.",
-			Rules:      []*Rule{rCODEC5}},
+			Rules:      []*Rule{rCODEC5, rOPT, rRET1}},
+		{ID: "C04",
+			Decided:    "every explicit panic reachable from the scan/parse/compile entry points is recovered in place, proven unreachable from re-checked premises, or a listed finding; scope switches are exhaustive; the globals slot count is checked; compiler scope/loop stacks are balanced on error paths; parser error positions are token/node start positions.",
+			NotDecided: "termination; implicit run-time panics in general (index, nil, slice bounds); that every reported position lies inside the input.",
+			Rules:      []*Rule{rPANIC1, rPANIC2, rPANIC3, rSCOPE1, rJMP2, rNEWPARSER, rPOSARG}},
 		{ID: "C05",
 			Decided:    "the structure that turns any ordinary panic of the VM goroutine into a returned error, waits for that goroutine, and releases the lock by defer on every exit.",
 			NotDecided: "which run-time faults a script can provoke; faults recover() cannot catch are only partly covered (thorough).",
